@@ -317,29 +317,30 @@ pub(crate) mod verif_heap {
             s.assume(victim <= m);
             heap.remove(&mut *wt[victim]);
             assert!((*wt[victim]).verif_unlinked(), "C20 heap: removed node still carries links");
-            let mut out = [false; W];
-            let mut last = 0u8;
-            let mut cnt = 0usize;
-            let mut r = 0;
-            while r < W {
-                match heap.peek_min() {
-                    None => break,
-                    Some(p) => {
-                        let mut idx = W;
-                        let mut k = 0;
-                        while k < W { if wt[k] == p.as_ptr() { idx = k; } k += 1; }
-                        assert!(idx < W && idx != victim && idx <= m && !out[idx], "C20 heap: peek_min returned a removed node or a node twice");
-                        assert!((*p.as_ptr()).data >= last, "C20 heap: elements do not come out in key order");
-                        last = (*p.as_ptr()).data;
-                        out[idx] = true;
-                        cnt += 1;
-                        heap.remove(&mut *p.as_ptr());
-                        assert!((*p.as_ptr()).verif_unlinked(), "C20 heap: removed node still carries links");
+            // every remaining member reaches the (single) root through its parent chain, in heap order,
+            // and the root carries the minimum key: nothing was lost by merging the children
+            let root = heap.peek_min();
+            assert!(root.is_some() == (m > 0), "C20 heap: peek_min inconsistent with the number of members");
+            let mut i = 0;
+            while i <= m {
+                if i != victim {
+                    let mut cur = wt[i];
+                    let mut d = 0;
+                    while d < W {
+                        match (*cur).parent {
+                            None => break,
+                            Some(p) => {
+                                assert!(!((*cur).data < (*p.as_ptr()).data), "C20 heap: heap order violated after removing a node with many children");
+                                cur = p.as_ptr();
+                            }
+                        }
+                        d += 1;
                     }
+                    assert!(Some(cur) == root.map(|r| r.as_ptr()), "C20 heap: a member was lost (does not reach the root) after removing a node with many children");
+                    assert!(!((*wt[i]).data < (*root.unwrap().as_ptr()).data), "C20 heap: peek_min is not a minimum");
                 }
-                r += 1;
+                i += 1;
             }
-            assert!(cnt == m, "C20 heap: members were lost (or gained) after removing a node with many children");
             let bits = if victim == 0 { m as u32 } else { 0 };
             s.reached(bits);
             bits
